@@ -166,10 +166,19 @@ def fam_creation(rng, n):
     return fam
 
 
-def classify(detail):
+def classify(detail, mspec=None, stage=None):
+    """signature of the listed known finding a crash belongs to, or None.  The finding 'an agent whose
+    restricted state has no filter-passing choice' is recognised by its CAUSE (the model's filters leave
+    some restricted state without passing choice in some period, and the crash happens while simulating):
+    the exception that results depends on how many agents and segments are involved."""
     for name, pats in KNOWN.items():
         if any(p in str(detail) for p in pats):
+            if name == "agent_without_admissible_restricted_choice" and mspec is not None \
+                    and not (stage == "simulate" and G.excludes_states(mspec)):
+                continue
             return name
+    if mspec is not None and stage == "simulate" and G.excludes_states(mspec):
+        return "agent_without_admissible_restricted_choice"
     return None
 
 
@@ -199,7 +208,7 @@ def fam_run(rng, n):
             fam.exact += 1                 # rejected with ValueError when the functions are created: allowed
             fam.bump("rejected_at_creation")
         else:
-            fam.violations.append({"case": w, "impl": i, "known_signature": classify(i.get("detail")),
+            fam.violations.append({"case": w, "impl": i, "known_signature": classify(i.get("detail"), c["_mspec"], i.get("stage")),
                                    "what": f"accepted specification raised {i['class']} in {i['stage']}: {i['detail'][:160]}"})
     return fam
 
